@@ -2,6 +2,7 @@ package vc
 
 import (
 	"fmt"
+	"time"
 	"go/ast"
 	"go/token"
 	"go/types"
@@ -299,9 +300,23 @@ func (w *World) resolveRef(f *spec.File, ref string) (string, error) {
 			}
 			if f.Pkg != "" {
 				if pk := w.Prog.All[f.Pkg]; pk != nil {
+					for _, sf := range pk.Syntax {
+						for _, is := range sf.Imports {
+							if is.Name != nil && is.Name.Name == q {
+								return strings.Trim(is.Path.Value, "\"") + "." + name[i+1:]
+							}
+						}
+					}
 					for path, imp := range pk.Imports {
 						if imp.Name == q || path == q {
 							return path + "." + name[i+1:]
+						}
+					}
+					if pk.Types != nil {
+						for _, imp := range pk.Types.Imports() {
+							if imp.Name() == q {
+								return imp.Path() + "." + name[i+1:]
+							}
 						}
 					}
 				}
@@ -736,6 +751,8 @@ type Engine struct {
 	dynDone      map[string]bool
 	zeroArrDone  map[string]bool
 	pathModel    []ModelTerm
+	started      time.Time
+	budget       time.Duration
 }
 
 func newEngine(w *World, unit string) *Engine {
@@ -744,7 +761,7 @@ func newEngine(w *World, unit string) *Engine {
 		typeTags: map[string]int{}, heapKeys: map[string]heapKey{}, unitName: unit,
 		globalsDone: map[*ssa.Global]bool{}, maxPaths: 4096, noteSeen: map[string]bool{}, trustedUsed: map[string]bool{},
 		fnConsts: map[string]bool{}, implIfaces: map[string]bool{}, fnIDs: map[string]int{}, cells: map[*ssa.Alloc]Value{},
-		pureMemo: map[string]Value{}, sawCallSite: map[*spec.CallSite]bool{}, nonNilDone: map[string]bool{}, dynDone: map[string]bool{}, zeroArrDone: map[string]bool{},
+		pureMemo: map[string]Value{}, sawCallSite: map[*spec.CallSite]bool{}, nonNilDone: map[string]bool{}, dynDone: map[string]bool{}, zeroArrDone: map[string]bool{}, started: time.Now(), budget: 90 * time.Second,
 	}
 }
 
